@@ -158,6 +158,33 @@ def load_known():
     return json.loads(KNOWN.read_text())
 
 
+def unseen_helpers(prog, qual):
+    """Repository functions called by ``qual`` that did not exist in the
+    tree the rules were written against (not in refnames.json) and could
+    not be inlined: part of the logic the rule reads has moved where the
+    rule does not look."""
+    import ast as _ast
+    from .refnames import load_ref
+    ref = load_ref()
+    f = prog.funcs.get(qual)
+    if f is None or not ref:
+        return []
+    out = set()
+    try:
+        sites = list(prog.call_sites(f))
+    except Exception:  # noqa: BLE001
+        return []
+    for _call, kind, targets in sites:
+        if kind not in ("internal", "cha"):
+            continue
+        for t in targets or ():
+            g = prog.funcs.get(t)
+            if g is not None and t not in ref and not isinstance(
+                    g.node, _ast.Lambda):
+                out.add(t)
+    return sorted(out)
+
+
 def finish(ctx: Ctx, t0: float, explanation: str, technique: str,
            only_key: str | None = None) -> int:
     known = load_known()
@@ -179,6 +206,22 @@ def finish(ctx: Ctx, t0: float, explanation: str, technique: str,
               f" [{f.rule} {f.func} :: {f.construct}]")
     rc = 0
     replay_dir = OUT / "replay"
+    # a violation is only reported when the rule has seen all the code it
+    # was written for: if the judged function now delegates to helpers
+    # that are new (and could not be inlined), the verdict is 'undecided'
+    undecided = []
+    judged = []
+    for f in new:
+        hs = unseen_helpers(ctx.prog, f.func)
+        (undecided if hs else judged).append((f, hs))
+    for f, hs in undecided:
+        print(f"UNDECIDED property={ctx.prop} rule={f.rule}: {f.func} now "
+              f"delegates to {', '.join(hs)}, which the rule does not "
+              f"follow; not judged ({f.message[:160]})")
+        ctx.note(f"undecided: {f.key} (delegates to {hs})")
+    new = [f for f, _h in judged]
+    if undecided and not new:
+        rc = 2
     for f in new:
         replay_dir.mkdir(parents=True, exist_ok=True)
         h = hashlib.sha1(f.key.encode()).hexdigest()[:10]
